@@ -217,6 +217,98 @@ def file_stream(ctx, rng, count):
             ctx.fail('C14/file-shape', case, {'error': float(np.max(np.abs(s0 - s1)))})
 
 
+def file_stream_rich(ctx, rng, count):
+    """several shapes of every kind in one sequence (RF magnitude/phase/time shapes, gradient waveform and time shapes,
+    near-equal shapes that merge in duplicate removal and renumber the later ids), written on one gradient raster and
+    read back by an object created with another: every decoded sample array and time array must match the original
+    within the bound (time arrays: exactly the same instants)"""
+    import pypulseq as pp
+    for k in range(count):
+        r = rng.choice([10e-6, 20e-6, 5e-6])
+        system = pp.Opts(max_grad=1e12, max_slew=1e15, grad_raster_time=r)
+        seq = pp.Sequence(system)
+        kinds = []
+        nblk = rng.randint(3, 7)
+        for b in range(nblk):
+            kind = rng.choice(['sinc', 'sinc', 'block', 'ext', 'ext1', 'arb', 'twins'])
+            kinds.append(kind)
+            if kind == 'sinc':
+                # same envelope at different flip angles: the normalised magnitude shapes are equal up to rounding noise
+                evs = [pp.make_sinc_pulse(rng.choice([0.3, 0.7, 1.1, 1.5707963]), duration=rng.choice([4e-4, 1e-3]), time_bw_product=4, system=system)]
+            elif kind == 'block':
+                evs = [pp.make_block_pulse(rng.choice([0.5, 1.0]), duration=rng.choice([2e-4, 5e-4, 1e-3]), system=system)]
+            elif kind == 'ext':
+                n = sorted(rng.sample(range(1, 60), rng.randint(2, 5)))
+                amps = [0.0] + [rng.uniform(-1e5, 1e5) for _ in n[:-1]] + [0.0]
+                evs = [pp.make_extended_trapezoid(rng.choice('xyz'), amplitudes=np.array(amps), times=np.array([0] + n) * r, system=system)]
+            elif kind == 'ext1':
+                # corners one raster apart, including at the start
+                amps = [0.0, rng.uniform(-3e4, 3e4), rng.uniform(-3e4, 3e4), 0.0]
+                evs = [pp.make_extended_trapezoid(rng.choice('xyz'), amplitudes=np.array(amps), times=np.array([0, 1, 2, 3]) * r, system=system)]
+            elif kind == 'arb':
+                n = rng.randint(5, 40)
+                w = np.cumsum(np.array([rng.uniform(-1, 1) for _ in range(n)])) * 1e3
+                w[-1] = 0.0
+                evs = [pp.make_arbitrary_grad(rng.choice('xyz'), w, first=0.0, last=0.0, system=system)]
+            else:
+                # two 4-point shapes differing far below the 9-digit rounding: they merge and later ids are renumbered
+                base = np.array([0.0, 1e5, 5e4, 0.0])
+                evs = [pp.make_extended_trapezoid('x', amplitudes=base, times=np.array([0, 10, 20, 30]) * r, system=system),
+                       pp.make_extended_trapezoid('y', amplitudes=base * (1 + 1e-13), times=np.array([0, 10, 20, 30]) * r, system=system)]
+            try:
+                dur = pp.calc_duration(*evs)
+                evs.append(pp.make_delay(math.ceil(dur / 1e-4 - 1e-9) * 1e-4))     # block duration on the block raster
+                seq.add_block(*evs)
+            except Exception:  # noqa: BLE001
+                ctx.count('file_rich.skipped_add_raise')
+        if not seq.block_events:
+            continue
+        case = {'kind': 'file-rich', 'raster': r, 'blocks': kinds, 'index': k}
+        with tempfile.TemporaryDirectory(prefix='pvC14r') as d:
+            fn = os.path.join(d, 'a.seq')
+            try:
+                seq.write(fn, create_signature=False)
+            except AssertionError:
+                ctx.count('file_rich.skipped_write_assertion')
+                continue
+            s2 = pp.Sequence()            # default system: 10 us gradient raster
+            s2.read(fn)
+        ctx.evaluated(('file-rich', k, r, tuple(kinds)))
+        ctx.count('stream.file_rich')
+        for i in seq.block_events:
+            b0, b1 = seq.get_block(i), s2.get_block(i)
+            bad = None
+            if (b0.rf is None) != (b1.rf is None):
+                bad = 'rf presence'
+            elif b0.rf is not None:
+                if len(b0.rf.signal) != len(b1.rf.signal) or len(b0.rf.t) != len(b1.rf.t):
+                    bad = 'rf length %d/%d vs %d/%d' % (len(b0.rf.signal), len(b0.rf.t), len(b1.rf.signal), len(b1.rf.t))
+                else:
+                    full = float(np.max(np.abs(b0.rf.signal))) or 1.0
+                    if float(np.max(np.abs(b0.rf.signal - b1.rf.signal))) > (1.1e-7 + 5.1e-6) * full:
+                        bad = 'rf signal'
+                    elif float(np.max(np.abs(np.asarray(b0.rf.t) - np.asarray(b1.rf.t)))) > 1e-12:
+                        bad = 'rf time shape'
+            for ch in ('gx', 'gy', 'gz'):
+                g0, g1 = getattr(b0, ch), getattr(b1, ch)
+                if bad or (g0 is None and g1 is None):
+                    continue
+                if (g0 is None) != (g1 is None) or g0.type != g1.type:
+                    bad = ch + ' presence/type'
+                elif g0.type == 'grad':
+                    if len(g0.waveform) != len(g1.waveform) or len(g0.tt) != len(g1.tt):
+                        bad = '%s length %d/%d vs %d/%d' % (ch, len(g0.waveform), len(g0.tt), len(g1.waveform), len(g1.tt))
+                    else:
+                        full = float(np.max(np.abs(g0.waveform))) or 1.0
+                        if float(np.max(np.abs(np.asarray(g0.waveform) - np.asarray(g1.waveform)))) > (1.1e-7 + 5.1e-6) * full:
+                            bad = ch + ' waveform'
+                        elif float(np.max(np.abs(np.asarray(g0.tt) - np.asarray(g1.tt)))) > 1e-12:
+                            bad = ch + ' time shape'
+            if bad:
+                ctx.fail('C14/file-rich', dict(case, block=int(i)), {'what': bad})
+                break
+
+
 def corpus():
     cs = []
     cs.append({'kind': 'corpus', 'force': False, 'x': [0.0] * 2 + [3.0, 3.0 + 7e-7] + [3.0 + 7e-7] * 3})
@@ -267,9 +359,14 @@ def run(ctx):
     if pending and ctx.model_available:
         compare_model(ctx, [p[0] for p in pending], [p[1] for p in pending])
     file_stream(ctx, ctx.rng('file'), {'quick': 40, 'thorough': 1500}[ctx.tier])
+    file_stream_rich(ctx, ctx.rng('file-rich'), {'quick': 60, 'thorough': 2000}[ctx.tier])
 
 
 def replay(ctx, case):
+    if case.get('kind') == 'file-rich':
+        rng = ctx.rng('file-rich')
+        file_stream_rich(ctx, rng, case['index'] + 1)
+        return {'note': 'file-rich stream regenerated up to the recorded index'}
     if case.get('kind') == 'file':
         return {'note': 'file-stream case; re-run ./check C14'}
     ns, data, y = impl_roundtrip(case)
